@@ -35,6 +35,79 @@ class Num:
         return tok(self.name)
 
 
+NUM_ALPHABET = set("0123456789.+-eEnaNinfINF")
+LABEL_ALPHABET = set("abcdefghijklmnopqrstuvwxyzABCDEFGHIJKLMNOPQRSTUVWXYZ0123456789_-.")
+MUT = "~"
+
+
+def _token_spans(s):
+    out, i = [], 0
+    while True:
+        a = s.find(L, i)
+        if a < 0:
+            return out
+        b = s.find(R_, a)
+        if b < 0:
+            return out
+        out.append((a, b))
+        i = b + 1
+
+
+def _alphabet(name):
+    """Characters the string denoted by a token may contain: printed numbers for observation tokens, identifier-like
+    text for label / name tokens (quotes, '?' and separators are not part of a value)."""
+    if name.startswith("c") or name.startswith("pname"):
+        return LABEL_ALPHABET
+    return NUM_ALPHABET
+
+
+def _hits(chars, name):
+    al = _alphabet(name.split(MUT)[0])
+    return any((not c.isspace()) and c in al for c in chars)
+
+
+def _mutate(s, span, how):
+    a, b = span
+    return s[:b] + MUT + how + s[b:]
+
+
+def str_hook(base, attr):
+    """Token-aware ``strip`` / ``lstrip`` / ``rstrip`` / ``replace``: a token stands for an arbitrary printed value, so
+    removing characters that such a value may contain at its edge (or anywhere, for ``replace``) yields a
+    *different* value -- the token is renamed (``«o1~rstrip(0)»``) and no longer equals what was written.
+    Whitespace stripping and characters outside the value's alphabet leave the token alone."""
+    if L not in base:
+        return None
+    if attr in ("strip", "lstrip", "rstrip"):
+        def strip(chars=None):
+            r = getattr(base, attr)(chars)
+            if chars is None or not isinstance(chars, str):
+                return r
+            spans = _token_spans(r)
+            if not spans:
+                return r
+            tag = "%s(%s)" % (attr, chars)
+            if attr in ("strip", "rstrip") and r.endswith(R_) and _hits(chars, r[spans[-1][0] + 1:spans[-1][1]]):
+                r = _mutate(r, spans[-1], tag)
+                spans = _token_spans(r)
+            if attr in ("strip", "lstrip") and r.startswith(L) and _hits(chars, r[spans[0][0] + 1:spans[0][1]]) \
+                    and MUT + tag not in r[spans[0][0]:spans[0][1]]:
+                r = _mutate(r, spans[0], tag)
+            return r
+        return strip
+    if attr == "replace":
+        def replace(old, new, count=-1):
+            r = base.replace(old, new, count)
+            if not isinstance(old, str) or old == new:
+                return r
+            for span in reversed(_token_spans(r)):
+                if _hits(old, r[span[0] + 1:span[1]]):
+                    r = _mutate(r, span, "replace(%s)" % old)
+            return r
+        return replace
+    return None
+
+
 def to_float(s):
     t = s.strip()
     if is_tok(t):
@@ -257,43 +330,60 @@ class ArrV:
 
 
 class FrameV:
-    """Positional model of a DataFrame: ordered columns of equally long cell lists (index alignment not modelled)."""
+    """Model of a DataFrame: ordered columns of equally long cell lists plus row labels (``index``; None = 0..n-1).
+    Column assignment from a Series aligns by row label exactly as pandas does (positional when the labels are
+    identical, otherwise a re-index of the series, which requires its labels to be unique)."""
 
-    def __init__(self, cols=None):
+    def __init__(self, cols=None, index=None):
         self.cols = dict(cols or {})
+        self.index = list(index) if index is not None else None
 
     def nrows(self):
+        if self.index is not None:
+            return len(self.index)
         return max([len(v) for v in self.cols.values()] or [0])
 
+    def labels(self):
+        return list(self.index) if self.index is not None else list(range(self.nrows()))
+
     def __eq__(self, o):
-        return isinstance(o, FrameV) and list(self.cols.items()) == list(o.cols.items())
+        return isinstance(o, FrameV) and list(self.cols.items()) == list(o.cols.items()) and self.labels() == o.labels()
 
     def __hash__(self):
         return hash(("F", len(self.cols)))
 
     def __repr__(self):
-        return "Frame(%s)" % ", ".join("%s=%r" % kv for kv in self.cols.items())
+        idx = "" if self.index is None or self.index == list(range(len(self.index))) else " index=%r" % (self.index,)
+        return "Frame(%s%s)" % (", ".join("%s=%r" % kv for kv in self.cols.items()), idx)
 
     def m_setitem(self, interp, key, v):
-        if isinstance(v, (SeriesV, ArrV)):
-            v = list(v.data)
-        elif isinstance(v, list):
-            v = list(v)
+        empty = not self.cols and self.nrows() == 0
+        if isinstance(v, SeriesV):
+            if empty:
+                self.index = None if v.index is None else list(v.index)
+                vals = list(v.data)
+            elif v.labels() == self.labels():
+                vals = list(v.data)
+            else:
+                lab = v.labels()
+                if len(set(map(repr, lab))) != len(lab):
+                    _raise("ValueError", "cannot reindex on an axis with duplicate labels")
+                look = {repr(l): x for l, x in zip(lab, v.data)}
+                vals = [look.get(repr(l)) for l in self.labels()]
+        elif isinstance(v, (ArrV, list)):
+            vals = list(v.data) if isinstance(v, ArrV) else list(v)
+            if not empty and len(vals) != self.nrows():
+                _raise("ValueError", "Length of values (%d) does not match length of index (%d)" % (len(vals), self.nrows()))
         elif isinstance(v, (str, int, float)) or v is None:
-            v = [v] * self.nrows()
+            vals = [v] * self.nrows()
         else:
             raise Undecided("frame column assigned from %s" % type(v).__name__)
-        if self.cols and len(v) != self.nrows() and self.nrows() > 0:
-            if not any(isinstance(x, SeriesV) for x in v) and len(v) < self.nrows():
-                v = v + [None] * (self.nrows() - len(v))
-            else:
-                _raise("ValueError", "Length of values does not match length of index")
-        self.cols[key] = v
+        self.cols[key] = vals
 
     def m_getitem(self, interp, key, node):
-        if isinstance(key, str) or isinstance(key, int):
+        if isinstance(key, (str, int)):
             if key in self.cols:
-                return SeriesV(self.cols[key])
+                return SeriesV(self.cols[key], self.index)
             _raise("KeyError", repr(key), node)
         raise Undecided("frame[%r]" % (key,))
 
@@ -303,18 +393,18 @@ class FrameV:
         if attr == "shape":
             return (self.nrows(), len(self.cols))
         if attr == "index":
-            return list(range(self.nrows()))
+            return self.labels()
         if attr in ("copy", "pop"):
             return BoundExt(self, attr)
         raise Undecided("DataFrame.%s" % attr)
 
     def m_method(self, interp, name, args, kwargs, node):
         if name == "copy":
-            return FrameV({k: list(v) for k, v in self.cols.items()})
+            return FrameV({k: list(v) for k, v in self.cols.items()}, self.index)
         if name == "pop":
             if args[0] not in self.cols:
                 _raise("KeyError", repr(args[0]), node)
-            return SeriesV(self.cols.pop(args[0]))
+            return SeriesV(self.cols.pop(args[0]), self.index)
         raise Undecided("DataFrame.%s" % name)
 
     def m_len(self, interp):
@@ -417,7 +507,7 @@ def make_externals(vfs, listing=None):
         if data is None:
             return FrameV()
         if isinstance(data, FrameV):
-            return FrameV({k: list(v) for k, v in data.cols.items()})
+            return FrameV({k: list(v) for k, v in data.cols.items()}, data.index)
         if isinstance(data, dict):
             fr = FrameV()
             for k, v in data.items():
@@ -431,7 +521,7 @@ def make_externals(vfs, listing=None):
         if data is None:
             return SeriesV([])
         if isinstance(data, (SeriesV, ArrV)):
-            return SeriesV(data.data, getattr(data, "index", None))
+            return SeriesV(data.data, index if index is not None else getattr(data, "index", None))
         if isinstance(data, (list, tuple)):
             return SeriesV(data, index)
         raise Undecided("pd.Series(%s)" % type(data).__name__)
@@ -448,20 +538,22 @@ def make_externals(vfs, listing=None):
         objs = list(interp.iterate(args[0] if args else kwargs["objs"]))
         if kwargs.get("axis", 0) not in (0, "index") or len(args) > 1:
             raise Undecided("pd.concat along another axis")
-        if kwargs.get("keys") is not None or kwargs.get("join", "outer") != "outer":
+        if kwargs.get("keys") is not None or kwargs.get("join", "outer") != "outer" or \
+                set(kwargs) - {"objs", "axis", "ignore_index", "join", "keys", "sort"}:
             raise Undecided("pd.concat with keys / inner join")
+        ignore = bool(kwargs.get("ignore_index", False))
         if all(isinstance(o, FrameV) for o in objs):
             cols = []
             for o in objs:
                 for c in o.cols:
                     if c not in cols:
                         cols.append(c)
-            out = FrameV()
+            out = FrameV(index=None if ignore else [l for o in objs for l in o.labels()])
             for c in cols:
                 out.cols[c] = [x for o in objs for x in (o.cols[c] if c in o.cols else [None] * o.nrows())]
             return out
         if all(isinstance(o, SeriesV) for o in objs):
-            return SeriesV([x for o in objs for x in o.data])
+            return SeriesV([x for o in objs for x in o.data], None if ignore else [l for o in objs for l in o.labels()])
         raise Undecided("pd.concat of %s" % [type(o).__name__ for o in objs])
 
     def _read_csv(interp, args, kwargs, node):
